@@ -4,6 +4,9 @@
 EXTENDS WritePath
 Remote2 == <<1, 2>>
 Remote3 == <<1, 2, 3>>
+\* entry 2 is written by a second remote writer, concurrently with entry 1; entry 3 follows entry 1
+RemotePar2 == (1 :> {} @@ 2 :> {})
+RemotePar3 == (1 :> {} @@ 2 :> {} @@ 3 :> {1})
 SimNext == \/ \E g \in G : WAppend(g)
            \/ \E g \in G : WPersist(g)
            \/ \E g \in G : WIndex(g)
